@@ -11,3 +11,4 @@ pub mod lexer;
 pub mod canon;
 pub mod frontfault;
 pub mod der;
+pub mod names;
